@@ -39,7 +39,9 @@ res["apply_to_repo"] = "checks run with VERIF_REPO=" + wt
 res["checks"] = {}
 for c in checks:
     rcc, outc = run("cd %s && VERIF_REPO=%s ./check %s" % (V, wt, c))
-    res["checks"][c] = {"exit": rcc, "lines": [l[:300] for l in outc.splitlines() if l.startswith(("VIOLATION", "OK ", "KNOWN-FINDING"))][:6]}
+    ls = [l[:300] for l in outc.splitlines()]
+    res["checks"][c] = {"exit": rcc, "lines": ([l for l in ls if l.startswith(("VIOLATION", "OK "))] + [l for l in ls if l.startswith("[check] broken")])[:6],
+                        "known_finding_lines": len([l for l in ls if l.startswith("KNOWN-FINDING")])}
 dst = os.path.join(V, "seeded", name)
 os.makedirs(dst, exist_ok=True)
 for f in os.listdir(demo):
